@@ -358,6 +358,12 @@ func (a *Analysis) decLayout(ct *CodecType, p *Path) *PathLayout {
 			}
 		}
 	}
+	for _, f := range fs {
+		if f.Kind == "dyn" && f.Table == "" {
+			f.Kind = "irregular"
+			f.Note = "Decode is invoked on the dynamic part the receiver already held (" + f.Name + "), not on one built from the discriminator just read"
+		}
+	}
 	return &PathLayout{Path: p, Layout: &Layout{Fields: fs}, Conds: condString(p.Conds)}
 }
 
